@@ -32,7 +32,8 @@ for k in ('m1', 'm2', 'm3'):
         continue
     repo = SCR + '/repo'
     shutil.rmtree(repo, ignore_errors=True)
-    subprocess.run('rsync -a --exclude target --exclude .git /repo/ %s/' % repo, shell=True, check=True)
+    os.makedirs(repo)
+    subprocess.run('git -C /repo archive HEAD | tar -x -C %s' % repo, shell=True, check=True)   # HEAD, not the working tree: /repo may be carrying a seeded patch at this moment
     subprocess.run('git init -q && git add -A && git -c user.email=a@b -c user.name=x commit -qm base', cwd=repo, shell=True, check=True)
     meta = dict(property=prop, mutation=TAG + k, source='independent sub-agent (given only the property text and a scratch worktree)',
                 base_commit=subprocess.run('git -C /repo rev-parse HEAD', shell=True, capture_output=True, text=True).stdout.strip())
